@@ -268,10 +268,14 @@ def oracle(ctx):
                         p = subprocess.run([core.BIN, '--dry-run', '--no-kmsg-log'], env=env, stdout=f, stderr=subprocess.PIPE, timeout=10)
                     rc, se = p.returncode, p.stderr.decode('utf-8', 'replace')
                 else:
-                    pr = subprocess.Popen([core.BIN, '--dry-run', '--no-kmsg-log'], env=env, stdout=subprocess.PIPE, stderr=subprocess.PIPE)
+                    pr = subprocess.Popen([core.BIN, '--dry-run', '--no-kmsg-log'], env=env, stdout=subprocess.PIPE, stderr=subprocess.DEVNULL)
                     pr.stdout.close()   # nobody reads: the first write fails with EPIPE
-                    se = pr.stderr.read().decode('utf-8', 'replace')
-                    rc = pr.wait(timeout=10)
+                    try:
+                        rc, se = pr.wait(timeout=10), ''
+                    except subprocess.TimeoutExpired:
+                        pr.kill()
+                        pr.wait()
+                        raise
             except subprocess.TimeoutExpired:
                 rc, se = 'timeout', ''
             r.append((rc, f'[stdout {sink}] ' + se[-300:]))
